@@ -55,10 +55,29 @@ def setup_info():
         try:
             m = importlib.import_module("mainloop2coq")
             _, info = m.translate()
-            _SETUP[0] = dict(items=info["setup"], conds=info["setup_conds"], points=info["setup_points"])
+            _SETUP[0] = dict(items=info["setup"], conds=info["setup_conds"], points=info["setup_points"], info=info, module=m)
         except Exception as e:
             _SETUP[0] = dict(error=str(e))
     return None if "error" in _SETUP[0] else _SETUP[0]
+
+
+def observer_report():
+    """what the translator found under the observer (verbosity) guards of main() that is not pure: list of strings
+    (empty on a tree whose verbosity tests only report); None when the translation fails"""
+    su = setup_info()
+    if su is None:
+        return None
+    info, m = su["info"], su["module"]
+    res = []
+    for n, effs in sorted(info.get("setup_effects", {}).items()):
+        bad = m.impure(effs)
+        if bad:
+            res.append("set-up, src/main.cpp:%d under a verbosity test: %s" % (n % 100000, "; ".join(m.show_oeff(e) for e in bad)))
+    for o in info.get("loop_observers", []):
+        bad = m.impure(o["effects"])
+        if bad:
+            res.append("simulation part (%s), src/main.cpp:%d `if (%s)`: %s" % (o["where"], o["line"], o["cond"], "; ".join(m.show_oeff(e) for e in bad)))
+    return res
 
 
 def setup_oracle(labels, reached_sim, rc=0):
